@@ -44,7 +44,7 @@ ASSUMPTIONS = [
 ]
 REQUIRED = ["redirect_checked", "redirect_chained_checked", "cat_checked", "cat_merged",
             "cat_linked", "cat_translate", "cat_no_translate", "cat_flag_as_numpy_bool_or_int",
-            "size_sweep_cases", "tap_redirect_tree", "tap_cat_tree"]
+            "size_sweep_cases", "redirect_positional_arguments", "tap_redirect_tree", "tap_cat_tree"]
 FLOOR = {"quick": 2500, "thorough": 300000}
 SHARDS = {"quick": 8, "thorough": 16}
 
@@ -156,7 +156,16 @@ def _exec_redirect(ctx, case):
         ctx.count("redirect_chained_checked")
     cols = _cols(cur)
     node_arg = [case["node"], np.int64(case["node"]), np.int32(case["node"])][case["node"] % 3]
-    out = redirect_tree(cur, node_arg, sort=case["sort"])
+    form = (case["node"] + len(cols["pid"])) % 4
+    if form == 0:    # every argument by position
+        out = redirect_tree(cur, node_arg, case["sort"])
+        ctx.count("redirect_positional_arguments")
+    elif form == 1:  # every argument by keyword
+        out = redirect_tree(tree=cur, new_root=node_arg, sort=case["sort"])
+    elif form == 2 and case["sort"]:  # the default left out
+        out = redirect_tree(cur, node_arg)
+    else:
+        out = redirect_tree(cur, node_arg, sort=case["sort"])
     ctx.count("redirect_checked")
     _check_redirect(ctx, case, cols, out, case["node"], case["sort"], what)
     for k, a in cols.items():
